@@ -804,6 +804,7 @@ def _register_atoms(e):
 def interval_of(run, ctx, lits, var_text, integer=True):
     """Tightest [lo, hi] for the integer quantity ``var_text`` implied by comparison literals."""
     lo, hi = -INF, INF
+    names = {var_text} if isinstance(var_text, str) else set(var_text)
     for (txt, pol) in lits:
         try:
             e = ast.parse(txt, mode='eval').body
@@ -812,10 +813,10 @@ def interval_of(run, ctx, lits, var_text, integer=True):
         if not (isinstance(e, ast.Compare) and len(e.ops) == 1):
             continue
         l, r, op = e.left, e.comparators[0], e.ops[0]
-        if U(r) == var_text and U(l) != var_text:
+        if U(r) in names and U(l) not in names:
             l, r = r, l
             op = {ast.Lt: ast.Gt, ast.LtE: ast.GtE, ast.Gt: ast.Lt, ast.GtE: ast.LtE}.get(type(op), type(op))()
-        if U(l) != var_text:
+        if U(l) not in names:
             continue
         from ..consteval import fold
         k = fold(run, r, ctx)
@@ -1703,3 +1704,65 @@ def message_templates(R, RID, minimum=20):
     fm = [x for x in own_nodes(f.node) if isinstance(x, ast.Call) and isinstance(x.func, ast.Attribute) and x.func.attr == 'format']
     R.ob(RID, 'WebSocketError formats msg with its arguments', len(fm) == 1, 'WebSocketError.__init__ body', func=f,
          node=None, construct='WebSocketError.__init__')
+
+
+def func_truth_table(R, q, atoms, recv=None):
+    """Truth table of the boolean function q (a method without parameters other than self) over the given atom texts,
+    decided path by path: for every assignment of the atoms, the value returned on the path(s) whose branch conditions
+    agree with it (locals are substituted by what they copy).  None when some path tests something else, or the
+    returned value is not a formula of the atoms."""
+    import itertools
+    g = R.cfg(q, recv) if recv else R.cfg(q)
+    rd = g_rd(g)
+    rets = [n for n in g.live_nodes() if n.kind == 'stmt' and isinstance(n.ast, ast.Return)]
+    if not rets:
+        return None
+    cases = []
+    for r in rets:
+        if r.ast.value is None:
+            return None
+        e = subst_locals(R, g, r, r.ast.value)
+        for l in path_conditions(R, g, rd, g.entry, r):
+            cond = {}
+            for grp in l.groups:
+                forms = dict((t, p) for (t, p) in grp[2])
+                hit = [a for a in atoms if a in forms]
+                if not hit:
+                    return None            # a branch on something that is not one of the atoms
+                cond[hit[0]] = forms[hit[0]]
+            cases.append((cond, e))
+    out = []
+    for vals in itertools.product([False, True], repeat=len(atoms)):
+        env = dict(zip(atoms, vals))
+        res = set()
+        for (cond, e) in cases:
+            if all(env[a] == v for a, v in cond.items()):
+                tt = bool_table(e, atoms)
+                if tt is None:
+                    return None
+                idx = list(itertools.product([False, True], repeat=len(atoms))).index(vals)
+                res.add(tt[idx])
+        if len(res) != 1:
+            return None
+        out.append(next(iter(res)))
+    return tuple(out)
+
+
+def len_texts(R, g, n, e):
+    """Equivalent texts of len(e) at node n: e itself and what it copies (single reaching definition chain)."""
+    out = {'len(%s)' % U(e), 'len(%s)' % otext(R, g, n, e)}
+    rd = g_rd(g)
+    cur, node = e, n
+    for _ in range(4):
+        if not isinstance(cur, ast.Name):
+            break
+        ds = rd.defs_at(node, cur.id)
+        if len(ds) != 1:
+            break
+        d = next(iter(ds))
+        v = rd.value_of_def(d, cur.id)
+        if v is None:
+            break
+        out.add('len(%s)' % U(v))
+        cur, node = v, d
+    return out
